@@ -98,7 +98,7 @@ def describe(program, module, fname, backend='ecdsa'):
                 env0 = _sym_env(fi, item)
                 res, env1, facts = ev.eval_fragment('%s.%s' % (module, fname), item, env0)
                 assigned = {k: v for k, v in env1.items() if k not in env0 or env0[k] != v}
-                recs.append(('seq', res if res is not FALL else ('fall',), assigned))
+                recs.append(('seq', res if res is not FALL else ('fall',), assigned, dict(env1)))
             else:
                 loop = item
                 env0 = _sym_env(fi, [loop])
@@ -131,6 +131,11 @@ def _cmp_recs(ob, a, b, what, where, same_term):
         if ra[0] == 'seq':
             same_term(ob, ra[1], rb[1], '%s, segment %d: exits (returned value / rejecting returns and their conditions)' % (what, i), where)
             for k in sorted(set(ra[2]) | set(rb[2])):
+                # a variable changed on one side and left unchanged on the other is a difference
+                if k not in ra[2] and k in ra[3]:
+                    ra[2][k] = ra[3][k]
+                if k not in rb[2] and k in rb[3]:
+                    rb[2][k] = rb[3][k]
                 if k not in ra[2] or k not in rb[2]:
                     # a temporary that exists on one side only is not a difference by itself: what it feeds is compared
                     ob.note('%s, segment %d: temporary %s exists only in %s' % (what, i, k, 'the reference' if k in rb[2] else 'the repository'))
